@@ -6,6 +6,7 @@ import (
 	"encoding/hex"
 	"fmt"
 	"strconv"
+	"strings"
 
 	"github.com/tormoder/fit"
 )
@@ -68,8 +69,8 @@ func init() {
 		if thorough {
 			nh, ncrc, nfiles, maxLen = 50, 65536, 200, 6000
 		}
-		return []CaseSet{genHeaders(r, nh, ncrc), genBursts(r, nfiles, maxLen, thorough)},
-			"headers: random field values x {matching CRC, " + strconv.Itoa(ncrc) + " stored CRCs, every single-byte corruption of every header byte, illegal sizes 0-255} through Header.CheckIntegrity, DecodeHeader and CheckIntegrity(headerOnly) (verdicts must agree); bursts: valid files (corpus + generated, both header sizes) x every start bit x window lengths 1-16 x patterns outside header bytes 0 and 4-7, plus value-targeted overwrites of aligned byte pairs (zero, all ones, swapped, checksum of the prefix, complement, ...) at the header fields, header CRC, record start and file CRC, through CheckIntegrity and Decode (must both reject)", false
+		return []CaseSet{genHeaders(r, nh, ncrc), genBursts(r, nfiles, maxLen, thorough), genAcceptedAnyReader(r, nfiles/2, maxLen)},
+			"headers: random field values x {matching CRC, " + strconv.Itoa(ncrc) + " stored CRCs, every single-byte corruption of every header byte, illegal sizes 0-255} through Header.CheckIntegrity, DecodeHeader and CheckIntegrity(headerOnly) (verdicts must agree); bursts: valid files (corpus + generated, both header sizes) x every start bit x window lengths 1-16 x patterns outside header bytes 0 and 4-7, plus value-targeted overwrites of aligned byte pairs (zero, all ones, swapped, checksum of the prefix, complement, ...) at the header fields, header CRC, record start and file CRC, through CheckIntegrity and Decode (must both reject); accepted files through CheckIntegrity and Decode behind readers that deliver 1, 2, 3, 7, 13, 4095 … bytes per call, short reads and data-with-EOF (a file Decode accepts must pass CheckIntegrity whatever the reader)", false
 	}
 	propPost["C04"] = postC04
 }
@@ -173,13 +174,28 @@ func genBursts(r *rng, nfiles, maxLen int, thorough bool) CaseSet {
 			}
 		}
 	}
+	// every start bit of small files; larger files are strided so that the whole set stays within a
+	// memory budget (each case carries the whole file), with a random phase so that different seeds
+	// visit different bits
+	perFile := 3000
+	if thorough {
+		perFile = 1 << 62
+		if len(files) > 0 {
+			perFile = (600 << 20) / len(files) // bytes of case text per file
+		}
+	}
 	for _, f := range files {
 		nbits := len(f) * 8
 		step := 1
-		if !thorough && nbits > 3000 {
-			step = 1 + nbits/3000
+		if !thorough && nbits > perFile {
+			step = 1 + nbits/perFile
 		}
-		for start := 8; start < nbits; start += step {
+		if thorough {
+			if maxCases := perFile / (2*len(f) + 40); nbits > maxCases {
+				step = 1 + nbits/(maxCases+1)
+			}
+		}
+		for start := 8 + r.intn(step); start < nbits; start += step {
 			length := 1 + r.intn(16)
 			pats := []uint32{1<<uint(length) - 1, 1 | 1<<uint(length-1), uint32(r.next())&(1<<uint(length)-1) | 1}
 			if thorough {
@@ -198,11 +214,46 @@ func genBursts(r *rng, nfiles, maxLen int, thorough bool) CaseSet {
 	return cs
 }
 
+// genAcceptedAnyReader: valid files through CheckIntegrity and Decode under every read schedule.
+func genAcceptedAnyReader(r *rng, nfiles, maxLen int) CaseSet {
+	cs := CaseSet{Name: "accepted-any-reader"}
+	for _, f := range validFiles(r, nfiles, maxLen) {
+		if len(f) > maxLen {
+			continue
+		}
+		for _, sch := range schedules {
+			for _, e := range []string{"integ", "decode"} {
+				cs.Cases = append(cs.Cases, decCase(e, "000", sch, "-", f))
+			}
+		}
+		cs.Cases = append(cs.Cases, decCase("integ", "000", randSched(r), "-", f))
+	}
+	return cs
+}
+
 func postC04(res *RunResult) {
 	postNoPanic(res)
+	// a file Decode accepts (through any reader) passes CheckIntegrity through every reader
+	accepted := map[string]bool{}
+	for i, c := range res.Stats.cases {
+		if res.Stats.setOf[i] != "accepted-any-reader" {
+			continue
+		}
+		if dc, ok := parseDecCase(c); ok && dc.entry == "decode" {
+			if dr, ok := parseDecRes(res.Stats.impl[i]); ok && dr.tag == "ok" {
+				accepted[string(dc.data)] = true
+			}
+		}
+	}
 	for i, c := range res.Stats.cases {
 		out := res.Stats.impl[i]
 		switch res.Stats.setOf[i] {
+		case "accepted-any-reader":
+			dc, ok := parseDecCase(c)
+			dr, ok2 := parseDecRes(out)
+			if ok && ok2 && accepted[string(dc.data)] && dr.tag != "ok" && !strings.Contains(dc.rspec, "f") {
+				addViolation(res, c, out, "a file that Decode accepts is rejected by "+dc.entry+" behind this reader")
+			}
 		case "bursts":
 			dr, ok := parseDecRes(out)
 			if ok && dr.tag == "ok" {
